@@ -105,6 +105,12 @@ fn render_equal(want: &str, got: &str) -> bool {
     if want == got {
         return true;
     }
+    // only the reports whose address no example pins with fewer than six digits and that the
+    // code prints unpadded today; everywhere else the six-digit form is part of the template
+    let lenient = [" Comm-B, Altitude Reply", " Comm-B, Identity Reply", " Mode S Extended Squitter Message"];
+    if !lenient.iter().any(|h| want.starts_with(h)) {
+        return false;
+    }
     let norm = |s: &str| -> String {
         s.lines()
             .map(|l| {
